@@ -78,6 +78,10 @@ def Verdict.mon (v : Verdict) (prop : String) (clause : String) (op : Nat) (deta
   { v with monitor := v.monitor.push (Json.mkObj fields),
            known := if known == "" || v.known.contains known then v.known else v.known.push known }
 
+/-- the same monitor clause reported under several properties (each property's check filters by its own id) -/
+def Verdict.mons (v : Verdict) (props : List String) (clause : String) (op : Nat) (detail : String := "") : Verdict :=
+  props.foldl (fun v p => v.mon p clause op detail) v
+
 def Verdict.br (v : Verdict) (b : String) : Verdict :=
   if v.branches.contains b then v else { v with branches := v.branches.push b }
 
